@@ -636,6 +636,10 @@ func (c *client) lookupRegion(ctx context.Context,
 				return nil, "", err
 			}
 		}
+		if err == ErrClientClosed {
+			// client has been closed, don't keep looking
+			return nil, "", err
+		}
 		if err == nil {
 			c.logger.Debug("looked up a region", "table", strconv.Quote(string(table)),
 				"key", strconv.Quote(string(key)), "region", reg, "addr", addr)
@@ -1154,6 +1158,13 @@ func (c *client) zkLookup(ctx context.Context, resource zk.ResourceName) (string
 	// separate goroutine.
 	reschan := make(chan zkResult, 1)
 	go func() {
+		select {
+		case <-c.done:
+			// the client was closed before this lookup got to run
+			reschan <- zkResult{"", ErrClientClosed}
+			return
+		default:
+		}
 		addr, err := c.zkClient.LocateResource(resource.Prepend(c.zkRoot))
 		// This is guaranteed to never block as the channel is always buffered.
 		reschan <- zkResult{addr, err}
